@@ -70,7 +70,7 @@ def run(ctx):
         "differ by < 1e-9 without being term-wise identical are excluded from the arg-max comparison",
         "column bounds of the modules are the identity for the centre / regression clauses",
     ]
-    N = ctx.scale(400, 3000)
+    N = ctx.scale(300, 3000)
     nmax = ctx.scale(12, 40)
     lines, metas = [], []
     for i in range(N):
